@@ -13,7 +13,7 @@ pub fn fixture_sources() -> Vec<PathBuf> {
     let t = Path::new("/repo/resources/testdata");
     [
         "wght_var.designspace", "static.designspace", "mov_xy.designspace", "KernlessMid.designspace",
-        "PartialKernException.designspace", "MVAR.designspace", "dspace_rules/Basic.designspace",
+        "PartialKernException.designspace", "MVAR.designspace", "dspace_rules/Basic.designspace", "dspace_rules/CustomFeatures.designspace",
         "glyphs3/WghtVar.glyphs", "glyphs3/WghtVar_Anchors.glyphs", "glyphs2/WghtVar.glyphs",
         "glyphs3/KernImplicitAxes.glyphs", "glyphs3/WghtVar_Instances.glyphs", "glyphs2/BracketTestFontKerning.glyphs",
         "glyphs3/Oswald-O.glyphs", "glyphs3/PropagateAnchorsTest.glyphs", "fontinfo_var.designspace",
@@ -105,7 +105,12 @@ pub fn build_runs(src: &Path, runs: &[RunCfg], tag: &str) -> Vec<S> {
 
 pub fn run(args: &Args) {
     let seed = args.seed;
-    let fixtures = fixture_sources();
+    // thorough tier: every buildable source of resources/testdata (list shared with c05)
+    let fixtures = if args.rest.iter().any(|a| a == "--all-fixtures") {
+        crate::c05::all_sources().into_iter().filter(|p| !p.to_string_lossy().contains("fontra")).collect()
+    } else {
+        fixture_sources()
+    };
     crate::run_cases("c01", args, move |i| {
         let mut rng = Rng::for_case(seed, "c01", i);
         // alternate fixtures and generated designs
